@@ -113,7 +113,8 @@ Definition dispatch (req : sx) : sx :=
   if op =? "enc" then enc_layout (gS a1) (gbool a2) (gbool a3) (gL a4)
   else if op =? "enc_int" then SB (int_encode (gbool a1) (gnat a2) (gI a3))
   else if op =? "observe" then observe (gB a1) (map gB (gL a2))
-  else if op =? "wf" then SL [sx_bool (consistent_b (gB a1)); sx_bool (sym_consistent_b (gB a1))]
+  else if op =? "wf" then SL [sx_bool (consistent_b (gB a1)); sx_bool (sym_consistent_b (gB a1));
+                                  sx_bool (seg_consistent_b (gB a1))]
   else if op =? "stripped_of" then sx_bool (stripped_of_b (gB a1) (gB a2))
   else if op =? "spec_tags" then spec_tags (gbool a1) (gbool a2) (gI a3) (gI a4) (map g_dent (gL a5)) (gB a6)
   else if op =? "gnu_valid" then sx_bool (gnu_valid (gbool a1) (gbool a2) (gB a3) (gI a4))
